@@ -87,16 +87,16 @@ class Check(CheckBase):
         i = 0
         for n_streams in (1, 2, 5, 16):
             for lat in LATENCY:
-                for rep_i in range(4 if quick else 150):
+                for rep_i in range(4 if quick else 1000):
                     r = random.Random(f'C20/{self.seed}/b/{i}')
                     cases.append({'kind': 'bound', 'seed': r.randrange(1 << 30), 'streams': n_streams, 'latency': lat,
                                   'limit': LIMITS[i % len(LIMITS)], 'direction': 'read' if i % 2 else 'write',
                                   'overshoot': [0.0, 0.0, 0.001, 0.05][i % 4], 'programs': 4})
                     i += 1
-        for j in range(24 if quick else 1500):
+        for j in range(24 if quick else 10000):
             r = random.Random(f'C20/{self.seed}/t/{j}')
             cases.append({'kind': 'transparent', 'seed': r.randrange(1 << 30)})
-        for j in range(24 if quick else 600):
+        for j in range(24 if quick else 3000):
             r = random.Random(f'C20/{self.seed}/c/{j}')
             cases.append({'kind': 'command', 'seed': r.randrange(1 << 30),
                           'command': ['snapshot+restore', 'upload-objects', 'download-objects'][j % 3],
